@@ -222,7 +222,7 @@ pub fn check_prefixes(case: &SeqCase, st: &mut Stats) -> Check {
     Ok(())
 }
 
-/// Thorough only: more than 65,535 references to one string (reference-count cap).
+/// More than 65,535 references to one string, all taken by one insert (reference-count cap).
 pub fn check_refcount_cap(rows: u32) -> Check {
     use msi::{Column, Insert, Package, PackageType, Value};
     let buf = crate::media::SharedBuf::new(Vec::new());
@@ -257,8 +257,12 @@ pub fn run(ctx: &Ctx) -> Report {
     rep.push(v);
     let v = search(ctx, "prefixes", ctx.tier.pick(4_000, 40_000), || seq::seq_case(W_FILES, 10), |c: &SeqCase, st| check_prefixes(c, st), &mut st);
     rep.push(v);
-    if ctx.tier == crate::engine::Tier::Thorough {
-        for rows in [43_690u32, 43_691, 65_536] {
+    {
+        // one insert that takes a pool entry to, and past, the 65,535
+        // references one entry can count (the next reference opens a second
+        // entry with the same text)
+        let cap_cases: &[u32] = if ctx.tier == crate::engine::Tier::Thorough { &[43_690, 43_691, 43_700, 65_536] } else { &[43_690, 43_691] };
+        for &rows in cap_cases {
             st.eval();
             st.class("refcount-cap");
             if let Err(f) = check_refcount_cap(rows) {
